@@ -39,6 +39,7 @@ pub const MODE_SLOW: u8 = 4; // answers after slow_ms
 pub const MODE_ERROR: u8 = 5; // answers every statement with an ErrorResponse
 pub const MODE_HANG_STARTUP: u8 = 6; // accepts, never completes the startup
 pub const MODE_REFUSE: u8 = 7; // like "down" for the pooler (existing connections are closed, new ones are closed at once) but the port stays bound: no other process can grab it
+pub const MODE_NOREAD: u8 = 8; // C20: established sessions stop reading (the peer's writes fill the TCP buffers and then block); nothing is answered
 
 pub struct Backend {
     pub name: String,
@@ -990,6 +991,10 @@ async fn session(be: Arc<Backend>, mut stream: TcpStream) {
 
 async fn run_session(c: &mut Conn) -> String {
     loop {
+        // C20: "noread" = the session stays open but does not read while the mode lasts
+        while c.be.mode.load(Ordering::SeqCst) == MODE_NOREAD {
+            tokio::time::sleep(std::time::Duration::from_millis(10)).await;
+        }
         let code = loop {
             match tokio::time::timeout(std::time::Duration::from_millis(20), c.stream.read_u8()).await {
                 Ok(Ok(x)) => break x,
@@ -1420,6 +1425,7 @@ impl Backend {
             "error" => MODE_ERROR,
             "hang_startup" => MODE_HANG_STARTUP,
             "refuse" => MODE_REFUSE,
+            "noread" => MODE_NOREAD,
             _ => MODE_NORMAL,
         };
         self.mode.store(v, Ordering::SeqCst);
